@@ -224,6 +224,24 @@ add("C10", True, "exploration",
     "loaded (undocumented allocator behaviour).",
     "DESIGN.md section 5, C10")
 
+add("C09", True, "fault_enumeration",
+    "Hypothesis-generated application maps x per-fill sets of chips that "
+    "miss the flood fill, against a machine model that assembles fills and "
+    "tracks core states",
+    "load_application runs against the simulated machine, which reassembles "
+    "every flood fill, asserts its well-formedness (block count/numbering/"
+    "size/placement, ordered core selects between start and end, fill ids) "
+    "and loads the image on the selected cores of the chips that did not "
+    "miss it. Normal return requires every requested core, and no other, to "
+    "hold its binary under the app id in the right state and the start "
+    "signal to be sent iff not waiting; SpiNNakerLoadingError must name "
+    "exactly the cores still missing; retries may only select cores still "
+    "missing; the number of fills is bounded.",
+    "Trusted: vf/sim/scamp.py flood-fill model, region expansion of C12. "
+    "Loss of individual flood-fill packets is not modelled (whole chips miss "
+    "a fill).",
+    "DESIGN.md section 5, C09")
+
 
 def main():
     checks = []
